@@ -40,11 +40,12 @@ Definition wf_hb (M : matrix) : bool :=
 Definition edge (M : matrix) (a b : nat) : bool :=
   existsb (fun e => (fst e =? a) && (snd e =? b)) (m_hb M).
 
+(* [if] instead of [&&]/[||]: vm_compute is call-by-value, the boolean operators would evaluate every branch *)
 Fixpoint reach (M : matrix) (k : nat) (a b : nat) : bool :=
-  edge M a b ||
+  if edge M a b then true else
   match k with
   | O => false
-  | S k' => existsb (fun e => (fst e =? a) && reach M k' (snd e) b) (m_hb M)
+  | S k' => existsb (fun e => if fst e =? a then reach M k' (snd e) b else false) (m_hb M)
   end.
 
 Definition hb (M : matrix) (a b : nat) : bool := reach M (m_nsteps M) a b.
@@ -63,8 +64,10 @@ Definition conflict (x y : access) : bool :=
   && negb (common_lock x y) && negb (a_atomic x && a_atomic y).
 
 Definition racy (M : matrix) (p : access * access) : bool :=
-  conflict (fst p) (snd p) && negb (hb M (a_step (fst p)) (a_step (snd p)))
-  && negb (hb M (a_step (snd p)) (a_step (fst p))).
+  if conflict (fst p) (snd p)
+  then if hb M (a_step (fst p)) (a_step (snd p)) then false
+       else if hb M (a_step (snd p)) (a_step (fst p)) then false else true
+  else false.
 
 Definition racy_pairs (M : matrix) : list (access * access) :=
   filter (racy M) (list_prod (m_acc M) (m_acc M)).
